@@ -153,7 +153,9 @@ func toBar(id int64, list []pl) *colarspb.BatchArrowRecords {
 }
 
 // c07History builds prefix + target + 2 followers with schema evolution at every stage.
-func c07History(c *vc.Case, sig canon.Signal, prefix int) *History {
+// A sparse target batch leaves most optional parts out, so that few related payload types are present
+// (a payload relabelled to an ABSENT type is then the only record of that type in the batch).
+func c07History(c *vc.Case, sig canon.Signal, prefix int, sparse bool) *History {
 	g := gen.New(c.R, gen.DValid)
 	g.Carve, _ = carveFor("C07")
 	h := &History{Script: fmt.Sprintf("c07:prefix=%d", prefix)}
@@ -163,6 +165,10 @@ func c07History(c *vc.Case, sig canon.Signal, prefix int) *History {
 		h.Batches = append(h.Batches, genBatch(g, sig, 4+c.R.IntN(8)))
 	}
 	g.ZeroBias = 0.25
+	if sparse {
+		g.ZeroBias = 0.93
+		h.Script += ":sparse-target"
+	}
 	h.Batches = append(h.Batches, genBatch(g, sig, 6+c.R.IntN(8)))
 	g.ZeroBias = 0.1
 	h.Batches = append(h.Batches, genBatch(g, sig, 6+c.R.IntN(8)))
@@ -286,6 +292,18 @@ func runFaulty(c *vc.Case, st *c07Stream, sig canon.Signal, target int, faults [
 		}
 	default:
 		c.Count("outcome.success_remainder", 1)
+		// the main record is in the batch, intact, but under another label only: whatever the consumer
+		// makes of it, success means its rows were silently discarded (the statement's last clause)
+		nRelabelled := 0
+		for _, p := range list {
+			if p.isMain && p.typ != mainType[sig] && !p.emptied {
+				nRelabelled++
+			}
+		}
+		if nRelabelled > 0 && wantItems > 0 {
+			c.Violation("faulty batch: success returned while the (relabelled) main record was discarded",
+				fmt.Sprintf("%s: the main payload is present and intact (%d rows) under another payload type; %d items returned with err=nil", fdesc, wantItems, gotItems), w(target, "success-but-relabelled-main-discarded"))
+		}
 	}
 	// ---- which sub-streams did the fault leave with a gap or a repetition?
 	nFed := int(meter.LastRecords)
@@ -355,7 +373,7 @@ func TestC07(t *testing.T) {
 	yes := true
 	r.Meta(vc.Meta{
 		Level:       "fault_enumeration",
-		Rule:        "case = (signal, valid prefix of 0/1/3 batches, target batch, fault list, two further well-formed batches) replayed into a fresh Consumer. Layer 'single' enumerates EVERY single payload-level fault of the target batch: relabel payload i to each of the known payload types and to an unknown enum value, drop i, duplicate i (adjacent / at end), move i to front / back, reverse, rotate, empty i (nil and zero-length), unknown schema id, stale (retired) schema id. Layer 'combo' = PRNG-chosen combinations of 2-4 faults. Oracle: the no-fault control decodes completely; on the faulty batch no panic, and err==nil with the intact main payload present requires all its rows; on later well-formed batches no panic provided the fault left the sub-streams they continue gap-free and duplicate-free (otherwise counted as out_of_domain_post_gap and not asserted). Non-trivial = every fault case; distinct = (signal, prefix, fault list).",
+		Rule:        "case = (signal, valid prefix of 0/1/3 batches, target batch, fault list, two further well-formed batches) replayed into a fresh Consumer. Layer 'single' enumerates EVERY single payload-level fault of the target batch: relabel payload i to each of the known payload types and to an unknown enum value, drop i, duplicate i (adjacent / at end), move i to front / back, reverse, rotate, empty i (nil and zero-length), unknown schema id, stale (retired) schema id. Layer 'combo' = PRNG-chosen combinations of 2-4 faults. Oracle: the no-fault control decodes completely; on the faulty batch no panic, and err==nil with the intact main payload present requires all its rows (and err==nil is not acceptable at all when the intact main payload is present under another label only); on later well-formed batches no panic provided the fault left the sub-streams they continue gap-free and duplicate-free (otherwise counted as out_of_domain_post_gap and not asserted). Non-trivial = every fault case; distinct = (signal, prefix, fault list).",
 		Assumptions: []string{"byte splicing between sub-streams and bit flips inside IPC buffers are outside the property's domain and not generated", "which payloads the consumer fed to its readers is inferred from the arrow_batch_records metric it publishes"},
 		Gates: map[string]map[string]int{
 			"quick":    {"faulty_batches_decoded": 2000, "followers.in_domain_decoded": 500, "outcome.error": 500},
@@ -368,7 +386,7 @@ func TestC07(t *testing.T) {
 	_ = yes
 	e := r.Env
 	prefixes := []int{0, 1, 3}
-	reps := e.Pick(1, 4)
+	reps := e.Pick(2, 6) // odd repetitions use a sparse target batch
 	// every history's single-fault enumeration is split into `chunks` cases so that shards share it;
 	// all chunks of a history re-generate the same history from its own PRNG stream
 	const chunks = 6
@@ -377,11 +395,14 @@ func TestC07(t *testing.T) {
 		sig := canon.Signal(hist % 3)
 		prefix := prefixes[(hist/3)%3]
 		c.R = vc.NewRand(e.Seed, "C07", "single-history", hist)
-		st := encodeAndControl(c, c07History(c, sig, prefix))
+		st := encodeAndControl(c, c07History(c, sig, prefix, (hist/9)%2 == 1))
 		if !st.ok {
 			return
 		}
 		n := len(st.bars[prefix].ArrowPayloads)
+		if (hist/9)%2 == 1 {
+			c.Count("single_fault_histories_with_sparse_target", 1)
+		}
 		fs := singleFaults(n)
 		done := 0
 		for fi, f := range fs {
@@ -407,7 +428,7 @@ func TestC07(t *testing.T) {
 	r.Layer("combo", e.Pick(300, 10000), func(c *vc.Case) {
 		sig := canon.Signal(c.R.IntN(3))
 		prefix := prefixes[c.R.IntN(3)]
-		st := encodeAndControl(c, c07History(c, sig, prefix))
+		st := encodeAndControl(c, c07History(c, sig, prefix, c.Idx%4 == 3))
 		if !st.ok {
 			return
 		}
